@@ -215,6 +215,11 @@ func Utf8ToBig5(utf8 string) (big5 []byte) {
 			}
 			big5 = append(big5, eachBig5...)
 			p_utf8 = p_utf8[3:]
+		} else {
+			// malformed lead byte, lone continuation byte or truncated sequence:
+			// replace it and move on, so that the scan always advances.
+			big5 = append(big5, 0xff, 0xfd)
+			p_utf8 = p_utf8[1:]
 		}
 	}
 
